@@ -139,6 +139,8 @@ impl<'p> AsMut<HashMap<Cell, &'p Property>> for PropertyBuffer<'p> {
 impl<'p> From<PropertyBuffer<'p>> for FragmentBuffer {
     fn from(property_buffer: PropertyBuffer<'p>) -> FragmentBuffer {
         let mut fb = FragmentBuffer::new();
+        #[cfg(feature = "verif")]
+        crate::verif::prop_order(property_buffer.as_ref().keys());
         for (cell, property) in property_buffer.as_ref() {
             let empty = &&Property::empty();
             let top_left = property_buffer
